@@ -404,6 +404,26 @@ def flight_body(ctx: core.Ctx, case):
     if not check_trajectory(ctx, traj, case, pm, sm):
         return
     check_resample(ctx, traj, case)
+    if len(traj) <= 120:
+        # A returned trajectory is a value: flying another mission afterwards (here the reverse route, on a new
+        # builder) must leave it untouched.  Only short trajectories are re-checked (cheap).
+        before = {f: np.array(getattr(traj, f), copy=True) for f in ('fuel_mass', 'aircraft_mass', 'ground_distance',
+                                                                     'flight_time', 'altitude', 'latitude', 'longitude')}
+        m2 = dict(m, o=m['d'], d=m['o'])
+        with fc.airports(fc.mission_airports(m2)):
+            try:
+                fc.make_builder(o).fly(pm, fc.make_mission(m2), starting_mass=None)
+            except core.PASS_THROUGH:
+                raise
+            except Exception:  # noqa: BLE001  (a rejection of the second mission is fine)
+                pass
+        ctx.label('returned:rechecked_after_another_flight')
+        for f, b in before.items():
+            a = np.asarray(getattr(traj, f))
+            if a.shape != b.shape or a.tobytes() != b.tobytes():
+                ctx.fail('result.altered_by_later_flight', 'mismatch', 'base.fly', 'len<=50' if len(b) <= 50 else 'len>50',
+                         f'field {f} of the returned trajectory ({len(b)} points) changed when another mission was flown')
+                return
 
 
 def run(ctx: core.Ctx):
